@@ -251,7 +251,7 @@ S.append(Schema('position_enum_override', [Rule('R', Seq(fc(), F('e', 0, Ref('E'
 
 S.append(Schema('check_string', [Rule('R', Alt(Seq(F('s', 0, Ref('St')), fc()), fd()), skip=False, export=True),
                                  Rule('St', Seq(A, Star(B)), skip=False, string=(0, 1), checks=[(0, 'crate::ops::chk_str0', 'string')])], 'R', 'ABCD', n=3, nchk=1, nonzero='B',
-    props=('C14', 'C02'),
+    props=('C14', 'C02', 'C10'),
     extract=J('                if let Some(s) = &v.s { o.x[0] = 0; o.x[1] = s.len() as i32; if s.as_bytes() != &t.sym[0..s.len()] { o.x[2] = -1; } }', opt(2, 'v.c'), opt(3, 'v.d')),
     note='@string @check: the check sees the finished string; a failed check backtracks to the next alternative'))
 
